@@ -319,6 +319,9 @@ class Gateway:
             fw_type, fw_ver = int(fw_type), int(fw_ver)
         except (TypeError, ValueError):
             return False
+        if not (0 <= fw_type <= 0xFFFF and 0 <= fw_ver <= 0xFFFF):
+            # type and version travel as unsigned 16-bit words: such firmware cannot exist on the wire
+            return False
         if image is not None:
             self.firmware[(fw_type, fw_ver)] = bytes(image)
         if (fw_type, fw_ver) not in self.firmware:
